@@ -89,7 +89,7 @@ def hostile_sheet(rng, idx):
 
 def mutate_text(rng, text):
     kind = rng.choice(["delete_line", "swap_numbers", "zero_qty", "truncate", "duplicate", "garbage", "empty", "remove_dollar", "long_number", "nul",
-                       "reorder_lines", "bad_date"])
+                       "reorder_lines", "bad_date", "year_digits", "value_words"])
     lines = text.split("\n")
     if kind == "delete_line" and len(lines) > 3:
         del lines[rng.randrange(len(lines))]
@@ -122,6 +122,19 @@ def mutate_text(rng, text):
     if kind == "reorder_lines":
         rng.shuffle(lines)
         return "\n".join(lines), kind
+    if kind == "year_digits":
+        # two-digit years written with four digits (and the reverse), years of three digits, non-ASCII digits
+        def yy(m):
+            y = m.group(3)
+            return m.group(1) + m.group(2) + rng.choice(["20" + y if len(y) == 2 else y[2:], "256", "1" + y, "٢٣", y])
+        return re.sub(r"(\d\d[-/])(\d\d[-/])(\d\d(?:\d\d)?)\b", yy, text, count=rng.choice([1, 2, 4])), kind
+    if kind == "value_words":
+        # a labelled row whose value is a word instead of a figure, or a heading that repeats the row names
+        t2 = re.sub(r"(Sale Price|Comission/Fee|Exercise Market Value|Shares Exercised|Market Value Per Share|Sale Price Per Share)\s+\$?[\d,.]+",
+                    lambda m: m.group(1) + " " + rng.choice(["N/A", "waived", "-", "TBD", ""]), text, count=rng.choice([1, 2]))
+        if rng.random() < 0.5:
+            t2 = t2.replace("Exercise Details", "Exercise Details\nGrant Number Exercise Market Value Shares Exercised Sale Price Comission/Fee", 1)
+        return t2, kind
     if kind == "bad_date":
         return re.sub(r"(\d\d)[-/](\d\d)[-/](\d\d+)", lambda m: rng.choice(["13-32-2022", "00/00/00", "2/30/22", m.group()]), text, count=2), kind
     return text, kind
